@@ -22,7 +22,7 @@ from workload import objectives, scenario, scripted, tasks
 from . import engine_g, engine_p, gprops, minimize, oracles_g
 from .engine_p import Session
 
-N = {"quick": (9000, 2500), "thorough": (120000, 25000)}       # (scripted histories, observational runs)
+N = {"quick": (16000, 3000), "thorough": (160000, 30000)}       # (scripted histories, observational runs)
 gprops.G_PROPS["C04"] = dict(oracles=["c04_obs"], families=scenario.FAMILIES, modes=scenario.MODES,
                              n_quick=N["quick"][1], n_thorough=N["thorough"][1], opts={"p_no_faults": 0.6})
 
